@@ -97,6 +97,12 @@ def curated():
         ('rule', 'Guarded', None, ('seq', [('ref', 'NotA'), ('opt', ('ref', 'Word')), ('opt', ('ref', 'AheadA'))])),
         ('class', 'Line', None, [('field', 'word', ('ref', 'Word')), ('field', 'end', ('opt', ('ref', 'End'))),
                                  ('field', 'rest', ('re', '[ab]*', False))])])))
+    # bounded repetitions over an element that can match nothing (matches that consume nothing count)
+    out.append(('nullable-bounded', dict(name=None, extends=None, stmts=[
+        ('rule', 'start', None, ('rep', ('opt', ('str', 'a')), 3, 3)),
+        ('rule', 'Range', None, ('rep', ('opt', ('str', 'b')), 1, 2)),
+        ('rule', 'AtLeast', None, ('seq', [('rep', ('re', 'a?', False), 2, 4), ('opt', ('str', 'b'))])),
+        ('class', 'Cells', None, [('field', 'cells', ('rep', ('left', ('opt', ('re', '[ab]', False)), ('opt', ('str', ','))), 3, 3))])])))
     # parameterised classes used directly as entry points: Cls.parse(*values)(text, pos, fullparse)
     out.append(('class-template-entry', dict(name=None, extends=None, stmts=[
         ('rule', 'start', None, ('alt', [('call', 'Rep', [('num', '2')]), ('call', 'Tagged', [('py', "'s'"), ('num', '1')])])),
@@ -264,7 +270,7 @@ def run_shard(rec):
     for tag, G in curated():
         idx += 1
         if rec.mine(idx):
-            alpha = 'ab\n' if 'multi-line' in tag else ('axy' if 'empty-class' in tag else ('a+-' if tag == 'optable-entry' else 'ab'))
+            alpha = 'ab,' if tag == 'nullable-bounded' else 'ab\n' if 'multi-line' in tag else ('axy' if 'empty-class' in tag else ('a+-' if tag == 'optable-entry' else 'ab'))
             if 'lookahead-class' in tag or 'backtrack-class' in tag:
                 alpha = 'a<>!'
             run_one(rec, G, ('curated', tag), alpha, 5 if quick else 6,
